@@ -332,6 +332,15 @@ class Check:
         if elsewhere:
             self.notes['forbidden_constructs_outside_this_property'] = elsewhere[:10]
         self.notes['lean_files_in_closure'] = len(closure)
+        if not self.quick() and not self.proof_broken:
+            # thorough tier: the toolchain's independent checker replays the declarations of every compiled module of this
+            # property's import closure in a fresh kernel environment
+            rel = sorted(str(f.relative_to(LEAN))[:-5].replace('/', '.') for f in closure)
+            t0 = time.time()
+            p = subprocess.run(['lake', 'env', 'leanchecker'] + rel, cwd=str(LEAN), capture_output=True, text=True)
+            self.notes['leanchecker'] = {'modules': len(rel), 'seconds': round(time.time() - t0, 1), 'exit': p.returncode}
+            if p.returncode != 0:
+                self.proof_broken.append({'theorem': 'leanchecker', 'log': (p.stdout + p.stderr)[-800:]})
         names = props_theorems(self.pid, extra_props)
         self.obligations = len(names)
         if not self.proof_broken:
